@@ -863,6 +863,29 @@ func genManyRestrictions(r *rng) *Model {
 	return m
 }
 
+// genEmptyRelationName: a relation literally named "" (JSON / protobuf only)
+// and userset restrictions on it - the relation branch of the restriction's
+// oneof is set, to the empty string. Which branch is set decides what kind of
+// restriction it is, not the value.
+func genEmptyRelationName(r *rng) *Model {
+	m := &Model{Schema: "1.1"}
+	m.Types = append(m.Types, &Type{Name: "user"}, &Type{Name: "employee"})
+	group := &Type{Name: "group"}
+	group.Relations = append(group.Relations,
+		&Relation{Name: "", Expr: &Expr{Kind: KThis}, Direct: []Ref{{Type: "user"}}},
+		&Relation{Name: "member", Expr: &Expr{Kind: KUnion, Children: []*Expr{{Kind: KThis}, {Kind: KComputed, Rel: ""}}}, Direct: []Ref{{Type: "employee"}}})
+	doc := &Type{Name: "doc"}
+	doc.Relations = append(doc.Relations,
+		&Relation{Name: "viewer", Expr: &Expr{Kind: KThis}, Direct: []Ref{{Type: "group", EmptyRel: true}}},
+		&Relation{Name: "editor", Expr: &Expr{Kind: KThis}, Direct: []Ref{{Type: "group", EmptyRel: true}, {Type: "group"}, {Type: "group", Rel: "member"}}},
+		&Relation{Name: "both", Expr: &Expr{Kind: []string{KInter, KUnion, KExcl}[r.intn(3)], Children: []*Expr{{Kind: KComputed, Rel: "viewer"}, {Kind: KComputed, Rel: "editor"}}}})
+	if r.chance(50) {
+		doc.Relations = append(doc.Relations, &Relation{Name: "", Expr: &Expr{Kind: KThis}, Direct: []Ref{{Type: "doc", EmptyRel: true}, {Type: "user", Wild: r.chance(50)}}})
+	}
+	m.Types = append(m.Types, group, doc)
+	return m
+}
+
 // genOperatorLattice: one base relation with several types consumed by several
 // intersections and exclusions, each of which keeps another part of its types
 // (whatever an operator does to the map of one operand must not reach the
